@@ -3131,6 +3131,11 @@ func (pc *PeerConnection) generateMatchedSDP(
 			if transceiver == nil {
 				return nil, fmt.Errorf("%w: %q", errPeerConnTranscieverMidNil, midValue)
 			}
+			if !includeUnmatched {
+				// Answering: a track may have been attached since SetRemoteDescription adjusted the
+				// direction, so narrow it again to what the offered direction allows.
+				transceiver.setDirection(answerDirection(direction, transceiver.Direction()))
+			}
 			if sender := transceiver.Sender(); sender != nil {
 				sender.setNegotiated()
 			}
